@@ -45,6 +45,12 @@ func genC11(r *Rand, tier string) *Case {
 	}
 	genHistory(r, c, histOpts{simple: true, extended: true, copy: r.Chance(1, 4), errs: r.Chance(1, 3), params: true, binary: true, closes: true, multi: true,
 		oversized: r.Chance(1, 2), sizes: r.Chance(1, 4), unknown: r.Chance(1, 5), terminate: r.Chance(1, 3), maxUnits: 4})
+	if su := &c.Conns[0].Steps[0].Msgs[0]; su.K == "startup" && r.Chance(1, 8) {
+		// a startup packet of another protocol version (2.0, 4.0, 1.0, 0.0, 3.99):
+		// whatever the server makes of it, it makes the same of it behind an
+		// SSLRequest - answered 'N' or 'S' - as on a fresh connection
+		su.Proto = uint32(r.PickInt(0x00020000, 0x00040000, 0x00010000, 0x00030063, 0x00000001, 0x7fff0000))
+	}
 	// every query text and command tag carries the canary
 	for _, p := range c.Programs {
 		for _, sp := range p.Stmts {
@@ -281,6 +287,30 @@ func checkC11(x *Exec, c *Case) ([]Violation, bool) {
 		if len(cs.Out) == 0 || cs.Out[0] != 'N' {
 			add("ssl-answer", fmt.Sprintf("SSLRequest without certificates answered with %q, want the single byte 'N'", trunc(string(cs.Out), 8)))
 		}
+		if (c.Variant == "declined" || c.Variant == "declined-pipelined") && len(cs.cc.Faults) == 0 && len(cs.Out) > 0 && cs.Out[0] == 'N' {
+			// T5: after 'N' the connection continues exactly like a fresh one that
+			// starts with the same startup packet
+			ref := c.Clone()
+			rc := &ref.Conns[0]
+			if len(rc.Steps) > 0 && len(rc.Steps[0].Msgs) > 0 && rc.Steps[0].Msgs[0].K == "ssl" {
+				rc.Steps[0].Msgs = rc.Steps[0].Msgs[1:]
+				if len(rc.Steps[0].Msgs) == 0 {
+					rc.Steps = rc.Steps[1:]
+				}
+				rc.Cuts = nil
+				rr := x.Run(ref)
+				if len(rr.Conns) == 1 {
+					got, want := ParseOut(cs), ParseOut(rr.Conns[0])
+					if got.Grammar == nil && want.Grammar == nil {
+						if Canonical(got.Msgs) != Canonical(want.Msgs) {
+							add("declined-differs-from-fresh-startup", fmt.Sprintf("behind a declined SSLRequest the session was answered %q, the same bytes on a fresh connection %q", pgwire.Kinds(got.Msgs), pgwire.Kinds(want.Msgs)))
+						} else if a, b := CallbackTrace(cs), CallbackTrace(rr.Conns[0]); a != b {
+							add("declined-differs-from-fresh-startup", fmt.Sprintf("behind a declined SSLRequest the callbacks differ from those of the same bytes on a fresh connection:\n  declined: %s\n  fresh:    %s", trunc(strings.ReplaceAll(a, "\n", "; "), 300), trunc(strings.ReplaceAll(b, "\n", "; "), 300)))
+						}
+					}
+				}
+			}
+		}
 		if c.Variant == "declined-cancel" && (len(cs.Out) != 1 || CallbackTrace(cs) != "") {
 			add("cancel-after-decline", fmt.Sprintf("CancelRequest after 'N' produced output %q / callbacks %q", trunc(string(cs.Out), 20), CallbackTrace(cs)))
 		}
@@ -415,7 +445,7 @@ func checkC11(x *Exec, c *Case) ([]Violation, bool) {
 func init() {
 	register(&Prop{
 		ID: "C11", Level: "exploration", QuickS: 30, ThoroughS: 480,
-		Rule: "seeded TLS scenarios: server configured without TLSConfig / with an empty TLSConfig / with a certificate (1 in 8: expired or not yet valid at the TLS stack's clock - nobody verifies it); client behaviours: SSLRequest then a real crypto/tls handshake (TLS 1.2 or 1.3) then a generated session (simple and extended queries, failing handlers, Terminate) inside TLS; SSLRequest with a plaintext startup+Query stuffed behind it in the same or in the next segment; SSLRequest twice; a second SSLRequest inside TLS; CancelRequest after the upgrade; peer vanishing after 1-60 handshake bytes; against the certificate-less configs SSLRequest -> 'N' -> fresh plaintext startup, SSLRequest twice, or CancelRequest. The TLS client is a real goroutine and, like the server goroutine, a task of the seeded scheduler; both byte directions are tapped below TLS. Oracle: the answer is exactly one byte ('S' iff certificates), everything the server writes afterwards parses as TLS records and neither tapped direction contains the per-run canary carried by every query text and command tag, the decrypted stream and the callback trace equal those of the same session run in plaintext on an identically configured server, stuffed plaintext never reaches a callback, cancel/odd negotiations get no reply and no callback and the connection is closed, the run terminates; every case is E2 variant: the SSLRequest of a connection accepted just before Server.Close signalled the shutdown is answered with the same single byte; non-trivial; distinct = distinct case content hashes; configuration routes (TLSConfig option, exported field assigned after NewServer, certificate added afterwards); clients that let 50 ms - 1 h of simulated time pass between steps (the transport honours deadlines against the fake clock); variant tls-close-during-command: Server.Close pinned inside a running command of the TLS session, compared with the plaintext equivalent under the same Close",
+		Rule: "seeded TLS scenarios: server configured without TLSConfig / with an empty TLSConfig / with a certificate (1 in 8: expired or not yet valid at the TLS stack's clock - nobody verifies it); client behaviours: SSLRequest then a real crypto/tls handshake (TLS 1.2 or 1.3) then a generated session (simple and extended queries, failing handlers, Terminate) inside TLS; SSLRequest with a plaintext startup+Query stuffed behind it in the same or in the next segment; SSLRequest twice; a second SSLRequest inside TLS; CancelRequest after the upgrade; peer vanishing after 1-60 handshake bytes; against the certificate-less configs SSLRequest -> 'N' -> fresh plaintext startup, SSLRequest twice, or CancelRequest. The TLS client is a real goroutine and, like the server goroutine, a task of the seeded scheduler; both byte directions are tapped below TLS. Oracle: the answer is exactly one byte ('S' iff certificates), everything the server writes afterwards parses as TLS records and neither tapped direction contains the per-run canary carried by every query text and command tag, the decrypted stream and the callback trace equal those of the same session run in plaintext on an identically configured server, stuffed plaintext never reaches a callback, cancel/odd negotiations get no reply and no callback and the connection is closed, the run terminates; every case is E2 variant: the SSLRequest of a connection accepted just before Server.Close signalled the shutdown is answered with the same single byte; non-trivial; distinct = distinct case content hashes; configuration routes (TLSConfig option, exported field assigned after NewServer, certificate added afterwards); clients that let 50 ms - 1 h of simulated time pass between steps (the transport honours deadlines against the fake clock); variant tls-close-during-command: Server.Close pinned inside a running command of the TLS session, compared with the plaintext equivalent under the same Close; startup packets of other protocol versions (1.0, 2.0, 4.0, 3.99, ...) behind the SSLRequest; declined SSLRequests are also judged differentially: transcript and callbacks equal those of the same bytes sent on a fresh connection",
 		Components: []string{
 			"real: Handshake/potentialConnUpgrade/sslUnsupported, crypto/tls server and client (deterministic Rand and Time), the whole serving path on top of the tls.Conn",
 			"stub: raw duplex connection (simulated, tapped, every Read/Write of either party a schedule point), certificate (ed25519, generated in-process from a fixed seed), handler programs",
